@@ -88,6 +88,7 @@ var directedClasses = []directedClass{
 	{"unknown-dynamic", []string{"text-degree", "text-syllable", "yaml", "flag", "yaml-event", "yaml-parse", "yaml-conv"}},
 	{"unknown-chord-symbol", []string{"text-degree", "text-syllable", "yaml", "yaml-event", "yaml-parse", "yaml-conv"}},
 	{"unknown-modifier", []string{"flag"}},
+	{"chord-without-degree", []string{"no-degree-write", "no-degree-event", "no-degree-parse", "no-degree-conv"}},
 	{"key-without-scale", []string{"text-degree", "text-syllable", "yaml", "flag", "flag-syllable", "flag-info"}},
 	{"key-garbage", []string{"text-degree", "text-syllable", "yaml", "flag", "flag-syllable"}},
 	{"mixed-notation", []string{"text-degree", "text-syllable"}},
@@ -218,10 +219,40 @@ func checkC09Directed(c C09Directed) *Violation {
 		doc.Insts[j].Chord.Sym = bad
 		doc.Insts[j].Chord.Long = false
 		firstFailing = "write"
+	case "chord-without-degree":
+		// a chord mapping that names no degree: not among the nonsense C09 lists, so only the first half of the
+		// statement is asked - whatever the command makes of it, it ends cleanly
+		y := doc.YAML()
+		j := firstChord(items, at)
+		d := doc.Insts[j].Chord
+		variant := pickFrom(seed, []string{"omit", "null", "empty-map"})
+		old := "degree: " + yq(ivText(d.Deg, false)) + ", "
+		switch variant {
+		case "omit":
+			y = strings.Replace(y, old, "", 1)
+		case "null":
+			y = strings.Replace(y, old, "degree: ~, ", 1)
+		default:
+			y = strings.Replace(y, old, "", 1)
+			y = strings.Replace(y, "chord: {name: "+yq(d.Sym)+"}", "chord: {}", 1)
+		}
+		argv := map[string][]string{"no-degree-write": {"write"}, "no-degree-event": {"write", "event"}, "no-degree-parse": {"write", "parse"}, "no-degree-conv": {"write", "conv", "-c", "cmt"}}[c.Channel]
+		res := Run{Argv: argv, Stdin: y}.Exec()
+		if v := cleanOutcome(res); v != nil {
+			v.Msg = fmt.Sprintf("crd %s on a chord without degree (%s): %s\n%s", strings.Join(argv, " "), variant, v.Msg, clip(y, 500))
+			return v
+		}
+		return nil
 	case "unknown-modifier":
 		// crd write conv -c nosuch
-		res := Run{Argv: []string{"write", "conv", "-c", pickFrom(seed, []string{"nosuch", "cmt2", "CMT", "x"})}, Stdin: doc.YAML()}.Exec()
-		return mustFail(res, "write conv with an unknown modifier command")
+		in := doc.YAML()
+		cmdName := pickFrom(seed, []string{"nosuch", "cmt2", "CMT", "x", "cmt,nosuch"})
+		if seed%3 == 0 {
+			// the command is unknown whatever the piece holds, also nothing at all
+			in = pickFrom(seed/3, []string{"[]\n", "", "# nothing yet\n", "- values: [\"1\"]\n"})
+		}
+		res := Run{Argv: []string{"write", "conv", "-c", cmdName}, Stdin: in}.Exec()
+		return mustFail(res, fmt.Sprintf("write conv -c %s (unknown modifier command) on %q", cmdName, clip(in, 60)))
 	case "key-without-scale", "key-garbage":
 		bad := pickFrom(seed, scalelessKeys)
 		if c.Class == "key-garbage" {
